@@ -11,7 +11,7 @@
    injection at every recorded call (harness/c13.py); the index side is Prop_C06/C11: the
    invariant survives every operation, and a failed append invalidates the index (F19 repair). *)
 From Coq Require Import List ZArith NArith Bool.
-From TF Require Import Base Query Index DB IO proofs.IOP proofs.FaultP.
+From TF Require Import Base Query Index DB IO proofs.IOP proofs.FaultP proofs.PlanP proofs.FaultOpP.
 Import ListNotations.
 
 Theorem C13_fault_leaves_old_or_new : forall old p k recovery, forallb safe recovery = true ->
@@ -27,6 +27,15 @@ Theorem C13_buffer_is_part_of_the_operation : forall old p k,
                        w_pend (run_steps (world_of old) (firstn k (script_of old p)))).
 Proof. exact prefix_allowed2. Qed.
 
+(* the same in terms of the database model: the plan is the one IO.plan_of derives from the model's own step *)
+Theorem C13_operation_fault : forall E C norm s o k recovery,
+  (is_insert o = true -> forallb nan_free_point (st_rows s) = true) -> forallb safe recovery = true ->
+  let old := st_rows s in let new := st_rows (fst (step E C norm s o)) in
+  let w := run_steps (run_steps (world_of old) (firstn k (script_of old (plan_of o old new)))) recovery in
+  old_new_or_prefix old new (w_disk w) /\ old_new_or_prefix old new (w_disk (apply w PClose)).
+Proof. exact operation_fault_old_or_new. Qed.
+
 Print Assumptions C13_fault_leaves_old_or_new.
+Print Assumptions C13_operation_fault.
 Print Assumptions C13_also_after_close.
 Print Assumptions C13_buffer_is_part_of_the_operation.
